@@ -1,2 +1,60 @@
+"""Run a generated replay test (in-package, injected with -overlay) against the real code."""
+import json, os, subprocess, re
+
+def run_test_source(src, repo, env, scratch, tag="r"):
+    os.makedirs(scratch, exist_ok=True)
+    tf = os.path.join(scratch, "zz_verif_replay_%s_test.go" % tag)
+    with open(tf, "w") as f:
+        f.write(src)
+    ov = os.path.join(scratch, "ov_%s.json" % tag)
+    with open(ov, "w") as f:
+        json.dump({"Replace": {os.path.join(repo, "zz_verif_replay_test.go"): tf}}, f)
+    cmd = "ulimit -v 8000000; cd %s && go test -tags verif -overlay %s -vet=off -timeout 60s -count=1 -run '^TestVerifReplay$' -v ." % (repo, ov)
+    r = subprocess.run(["bash", "-c", cmd], env=env, capture_output=True, text=True)
+    return r.stdout + r.stderr
+
+def verdict(out, kind):
+    pre = re.search(r"REPLAY-PRE (true|false)", out)
+    if not pre:
+        return False, "replay did not run: " + out[-400:]
+    if pre.group(1) == "false":
+        return False, "model does not satisfy the compiled precondition (inconclusive)"
+    if "REPLAY-PANIC:" in out:
+        m = re.search(r"REPLAY-PANIC: (.*)", out)
+        return True, "real code panics: " + m.group(1)
+    if "panic:" in out and "goroutine" in out:
+        return True, "real code crashes: " + out[out.index("panic:"):][:200]
+    post = re.search(r"REPLAY-POST (true|false)", out)
+    if post:
+        if post.group(1) == "false":
+            return True, "real code returns a state that violates the compiled postcondition"
+        return False, "postcondition holds on the real code for this model (inconclusive)"
+    if "REPLAY-RETURNED" in out:
+        return False, "real code returned normally (no panic) for this model (inconclusive)"
+    return False, "replay output not understood: " + out[-300:]
+
 def try_replay(rec, o, here, repo, env, scratch):
-    return False
+    path = o.get("replay_test")
+    if not path or not os.path.exists(path):
+        if o.get("replay_note"):
+            rec["replay_note"] = o["replay_note"]
+        return False
+    src = open(path).read()
+    rec["replay_test_source"] = src
+    out = run_test_source(src, repo, env, os.path.join(scratch, "replay"), tag=str(abs(hash(o["id"])) % 100000))
+    ok, why = verdict(out, o.get("kind", ""))
+    rec["replay_output"] = out[-2000:]
+    rec["replay_verdict"] = why
+    return ok
+
+def rerun(path, here, repo, env, scratch):
+    rec = json.load(open(path))
+    src = rec.get("replay_test_source")
+    if not src:
+        print("replay file carries no executable test: obligation %s, solver output attached" % rec.get("obligation"))
+        return 1
+    out = run_test_source(src, repo, env, os.path.join(scratch, "replay"))
+    ok, why = verdict(out, "")
+    print(out[-1500:])
+    print("REPLAY %s: %s" % ("CONFIRMED" if ok else "NOT-CONFIRMED", why))
+    return 1 if ok else 0
